@@ -48,7 +48,7 @@ HEADER_SHAPES = {
 }
 
 
-def build_envelope(shape):
+def build_envelope(shape, embedded=False):
     env = etree.Element("{%s}Envelope" % ENV, nsmap={"soap-env": ENV})
     if shape is not None:
         h = etree.SubElement(env, "{%s}Header" % ENV)
@@ -70,8 +70,47 @@ def build_envelope(shape):
             else:
                 etree.SubElement(h, item["other"])
     b = etree.SubElement(env, "{%s}Body" % ENV)
-    etree.SubElement(b, "{urn:t}in").text = "x"
+    p = etree.SubElement(b, "{urn:t}in")
+    p.text = "x"
+    if embedded:
+        # a relayed message: the payload carries a complete SOAP envelope of its own, with a Header and a Security entry
+        p.text = None
+        inner = etree.SubElement(p, "{%s}Envelope" % ENV)
+        ih = etree.SubElement(inner, "{%s}Header" % ENV)
+        etree.SubElement(etree.SubElement(ih, "{%s}Security" % WSSE), "{%s}UsernameToken" % WSSE)
+        etree.SubElement(etree.SubElement(inner, "{%s}Body" % ENV), "{urn:t}in").text = "inner"
     return env
+
+
+def embedded_untouched(env):
+    inner = env.find("{%s}Body/{urn:t}in/{%s}Envelope" % (ENV, ENV))
+    if inner is None:
+        return True
+    tok = inner.find("{%s}Header/{%s}Security/{%s}UsernameToken" % (ENV, WSSE, WSSE))
+    return tok is not None and len(tok) == 0 and len(inner.find("{%s}Header" % ENV)) == 1
+
+
+class SteppingClock:
+    """datetime.now() for zeep.wsse.utils: every read is 0.4 s later than the one before, so two reads inside one
+    apply() straddle a second boundary every other time"""
+    reads = 0
+
+    @classmethod
+    def install(cls):
+        import zeep.wsse.utils as wu
+        import types
+
+        class DT(datetime.datetime):
+            @classmethod
+            def now(klass, tz=None):
+                cls.reads += 1
+                return datetime.datetime(2024, 5, 5, 10, 0, 0, tzinfo=tz) + datetime.timedelta(milliseconds=400 * cls.reads)
+        wu.datetime = types.SimpleNamespace(datetime=DT, timezone=datetime.timezone, timedelta=datetime.timedelta)
+
+    @classmethod
+    def uninstall(cls):
+        import zeep.wsse.utils as wu
+        wu.datetime = datetime
 
 
 def read_header(env):
@@ -197,7 +236,8 @@ def enc_bytes(x):
 
 def one_apply(z, token, cfg, shape_name, res, seen, pending, case_extra=None):
     shape = HEADER_SHAPES[shape_name]
-    env = build_envelope(shape)
+    embedded = bool(case_extra and case_extra.get("embedded_envelope"))
+    env = build_envelope(shape, embedded)
     case = dict(config={k: (v if not isinstance(v, (bytes, datetime.datetime)) else repr(v)) for k, v in cfg.items()}, header=shape_name)
     if case_extra:
         case.update(case_extra)
@@ -214,6 +254,8 @@ def one_apply(z, token, cfg, shape_name, res, seen, pending, case_extra=None):
         return
     hdr = read_header(env)
     fail = judge(cfg, shape, hdr, seen)
+    if not fail and not embedded_untouched(env):
+        fail = "the token was written into the envelope embedded in the Body"
     if fail:
         res.failures.append(dict(what=fail, case=case, header_after=hdr))
         return
@@ -229,6 +271,14 @@ def one_apply(z, token, cfg, shape_name, res, seen, pending, case_extra=None):
 
 
 def run(ctx):
+    SteppingClock.install()
+    try:
+        return _run(ctx)
+    finally:
+        SteppingClock.uninstall()
+
+
+def _run(ctx):
     res = Result()
     z = _zeep()
     UT = z.wsse.username.UsernameToken
@@ -266,6 +316,10 @@ def run(ctx):
                        zulu_timestamp=True, hash_password=None, timestamp=None)
             res.case(key=("shape", shape_name, dig))
             one_apply(z, UT("scott", "secret", use_digest=dig, zulu_timestamp=True), cfg, shape_name, res, seen, pending)
+            res.case(key=("shape-embedded", shape_name, dig))
+            res.count("body:embedded-envelope")
+            one_apply(z, UT("scott", "secret", use_digest=dig, zulu_timestamp=True), cfg, shape_name, res, seen, pending,
+                      dict(embedded_envelope=True))
     # prepared digest
     for shape_name in ("no-header", "security-placeholder"):
         cfg = dict(username="scott", password=None, password_digest="cHJlcGFyZWQ=", use_digest=True, nonce="n1", created=None,
@@ -299,7 +353,7 @@ def run(ctx):
     res.rule = ("grid: 3 usernames x 5 passwords (ascii, unicode, empty, bytes, None) x digest/text x nonce (None, '', ascii, unicode) x "
                 "created (None, leap-day with microseconds, epoch-like) x zulu x hash_password, header shapes rotated over 9 pre-existing "
                 "Header/Security/UsernameToken layouts (incl. childless, attribute-only and whitespace-only Security), Timestamp on every "
-                "5th; text-mode cases with digest-only options sampled 1/7; every shape x mode; prepared digest; one token object applied to "
+                "5th; text-mode cases with digest-only options sampled 1/7; every shape x mode, again with a complete SOAP envelope (own Header / Security) embedded in the Body; the clock read by zeep.wsse.utils advances 0.4 s on every read; prepared digest; one token object applied to "
                 "many requests with the password changed midway. distinct = distinct configuration x shape")
     return res
 
@@ -311,7 +365,8 @@ def search(ctx):
 def replay(ctx, payload):
     r = run(ctx)
     case = payload.get("case", payload)
-    bad = [f for f in r.failures if f["case"].get("config") == case.get("config") and f["case"].get("header") == case.get("header")]
+    bad = [f for f in r.failures if f["case"].get("config") == case.get("config") and f["case"].get("header") == case.get("header")
+           and f["case"].get("embedded_envelope") == case.get("embedded_envelope")]
     return (not bad), "rerun: %d matching failures" % len(bad)
 
 
